@@ -188,12 +188,22 @@ def numpy_route(ctx, rng, k):
         a = rng.integers(max(info.min, -2 ** 31), min(info.max, 2 ** 31 - 1), size=n[:2], endpoint=True).astype(dt)
         hd[int(c)] = a
         want[c] = a.astype(np.int64)
+    # now and then a key segyio's TraceField enum knows but the SGZ header-word table (89 rows) has no row for: the
+    # converter may refuse the dict; if it accepts it, the array must read back like any other ("all header dicts accepted")
+    beyond = sorted(set(int(v) for v in segyio.tracefield.keys.values()) - set(mksegy.ALL_FIELDS))
+    extra = None
+    if beyond and rng.random() < .15:
+        extra = int(rng.choice(beyond))
+        a = rng.integers(-1000, 1000, size=n[:2]).astype(np.int32)
+        hd[extra] = a
+        want[extra] = a.astype(np.int64)
+        codes = codes + [extra]
     give_il = bool(rng.random() < .4)
     if give_il:
         hd[int(segyio.TraceField.INLINE_3D)] = np.broadcast_to(np.array(il, dtype=np.int64)[:, None], n[:2])
     want[189] = np.broadcast_to(np.array(il)[:, None], n[:2])
     want[193] = np.broadcast_to(np.array(xl)[None, :], n[:2])
-    desc = {'route': 'numpy', 'n': n, 'fields': {c: str(hd[int(c)].dtype) for c in codes}, 'il': il[:2],
+    desc = {'route': 'numpy', 'n': n, 'fields': {c: str(hd[int(c)].dtype) for c in codes}, 'key_beyond_table': extra, 'il': il[:2],
             'xl': xl[:2], 'il_header_given': give_il}
     ctx.case(('numpy', n, tuple(desc['fields'].items()), give_il), sample=desc)
     ctx.stats['route_numpy'] += 1
@@ -204,11 +214,21 @@ def numpy_route(ctx, rng, k):
         conv.numpy_to_sgz(arr, out, 16, (4, 4, -1), ilines=np.array(il, dtype=ax_dt), xlines=np.array(xl, dtype=ax_dt),
                           samples=4.0 * np.arange(n[2]), trace_headers=dict(hd))
     except Exception as e:  # noqa
+        if extra is not None:
+            ctx.stats['numpy_key_beyond_table_refused'] += 1
+            return
         ctx.fail(f'NumPy conversion failed: {type(e).__name__}: {str(e)[:120]}', desc)
         return
+    if extra is not None:
+        ctx.stats['numpy_key_beyond_table_accepted'] += 1
     for p in spec.conformance_problems(out):
         ctx.fail('written file not conformant: ' + p, desc)
-    with SgzReader(out) as r:
+    try:
+        r = SgzReader(out)
+    except Exception as e:  # noqa
+        ctx.fail(f'file written from an accepted header dict cannot be opened: {type(e).__name__}: {str(e)[:80]}', desc)
+        return
+    with r:
         for c, a in want.items():
             try:
                 got = np.asarray(r.get_tracefield_values(segyio.TraceField(c)))
